@@ -33,18 +33,25 @@ def run(p, led, tier):
     led.rule("C08-R3", "permitted → success recorder; intentional block → no recorder; executor FAILURE (not successful) and agent exception → failure recorder (one obligation per outcome class, all gate × verdict cells enumerated)", 4)
     led.rule("C08-R4", "failure count incremented only by the failure recorder, cleared on recovery and manual reset; only breaker methods write the state", 3)
     L = h.loop
-    M = {n: p.find_method(L, n) for n in ("_check_circuit", "_record_failure", "_record_success", "reset_circuit_breaker", "run")}
+    N = h.names
+    M = {"admit": N.admit, "failure": N.rec_failure, "success": N.rec_success, "reset": N.reset, "run": N.run}
+    ROLE_NAME = {"admit": f"admission test {N.admit.name}", "failure": f"failure recorder {N.rec_failure.name}", "success": f"success recorder {N.rec_success.name}", "reset": N.reset.name}
+    SF, CF, TRIPS = N.state, N.count, N.trips
+    led.extra["roles"] = N.describe()
 
-    # the timestamp the recovery timeout is measured from: `<clock> - self.<F>  ≥|>  self.recovery_timeout`
-    cc0 = M["_check_circuit"]
-    cmps0 = [n for n in walk_no_nested(cc0.node) if isinstance(n, ast.Compare) and "recovery_timeout" in src(n)]
+    # the timestamp the recovery timeout is measured from: `<clock> - self.<F>  ≥|>  self.recovery_timeout`, anywhere below the admission test
     TS = None
-    if len(cmps0) == 1:
-        for x in ast.walk(cmps0[0]):
-            if isinstance(x, ast.BinOp) and isinstance(x.op, ast.Sub) and is_self_attr(x.right):
-                TS = x.right.attr
+    ts_site = None
+    for f in N.res.reachable_from(N.admit):
+        if f.cls is not L:
+            continue
+        for n in walk_no_nested(f.node):
+            if isinstance(n, ast.Compare) and "recovery_timeout" in src(n):
+                for x in ast.walk(n):
+                    if isinstance(x, ast.BinOp) and isinstance(x.op, ast.Sub) and is_self_attr(x.right) and ("now" in src(x.left) or "time" in src(x.left)):
+                        TS, ts_site = x.right.attr, (f, n)
     if TS is None:
-        raise AnchorError("_check_circuit: cannot find the `now - self.<timestamp>` vs recovery_timeout comparison")
+        raise AnchorError(f"{N.admit.qual}: cannot find the `now - self.<timestamp>` vs recovery_timeout comparison")
     led.extra["recovery_measured_from"] = TS
 
     def drive(o, mname, state):
@@ -56,27 +63,27 @@ def run(p, led, tier):
             r = it.call_fi(M[mname], [obj], {})
         except PyRaise as e:
             r = ("raise", repr(e.exc))
-        return dict(ret=r, writes=[e for e in it.events if e[0] == "write"], final=sname(obj.fields["_circuit_state"]),
-                    count=obj.fields["_failure_count"], last=obj.fields["_last_failure"], decisions=list(it.decisions))
+        return dict(ret=r, writes=[e for e in it.events if e[0] == "write"], final=sname(obj.fields[SF]),
+                    count=obj.fields[CF], last=obj.fields[N.last_failure], decisions=list(it.decisions))
 
     def elapsed_held(dec):
         return any(cmp_outcome(d, TS, "recovery_timeout") in ("ge", "gt") for d in dec)
 
     def threshold_held(dec):
-        return any(cmp_outcome(d, "_failure_count", "failure_threshold") in ("ge", "gt") for d in dec)
+        return any(cmp_outcome(d, CF, "failure_threshold") in ("ge", "gt") for d in dec)
 
-    for mname in ("_check_circuit", "_record_failure", "_record_success", "reset_circuit_breaker"):
+    for mname in ("admit", "failure", "success", "reset"):
         for st in STATES:
             paths = explore(lambda o: drive(o, mname, st), max_paths=200)
-            key = f"{mname} ▸ from {st}"
+            key = f"{ROLE_NAME[mname]} ▸ from {st}"
             probs = []
             edges = set()
             for _, r in paths:
-                sw = [(sname(w[3]), sname(w[4])) for w in r["writes"] if w[2] == "_circuit_state"]
+                sw = [(sname(w[3]), sname(w[4])) for w in r["writes"] if w[2] == SF]
                 for e in sw:
                     edges.add(e)
                 fin = r["final"]
-                if mname == "_check_circuit":
+                if mname == "admit":
                     if st == "CLOSED" and (sw or r["ret"] is not True):
                         probs.append(f"closed breaker: ret={r['ret']!r} writes={sw}")
                     if st == "HALF_OPEN" and (sw or r["ret"] is not True):
@@ -91,8 +98,8 @@ def run(p, led, tier):
                             probs.append(f"timeout elapsed but probe not admitted (state {fin}, ret {r['ret']!r})")
                         if not sw and r["ret"] is not False:
                             probs.append(f"open breaker admits a request (ret {r['ret']!r}) without moving to HALF_OPEN")
-                elif mname == "_record_failure":
-                    inc = [w for w in r["writes"] if w[2] == "_failure_count"]
+                elif mname == "failure":
+                    inc = [w for w in r["writes"] if w[2] == CF]
                     if len(inc) != 1 or "Add 1" not in repr(inc[0][4]):
                         probs.append(f"failure count not incremented by exactly one ({[repr(w[4]) for w in inc]})")
                     restarted = any(w[2] == TS and "clock" in repr(w[4]) for w in r["writes"])
@@ -112,9 +119,9 @@ def run(p, led, tier):
                         probs.append(f"failed probe must re-open the breaker; writes={sw}")
                     if st == "OPEN" and sw:
                         probs.append(f"illegal write(s) {sw} from OPEN")
-                    if sw and sw[-1][1] == "OPEN" and not any(w[2] == "_trips_count" for w in r["writes"]):
+                    if sw and sw[-1][1] == "OPEN" and not any(w[2] == TRIPS for w in r["writes"]):
                         probs.append("trip not counted")
-                elif mname == "_record_success":
+                elif mname == "success":
                     if st == "HALF_OPEN":
                         if sw != [("HALF_OPEN", "CLOSED")]:
                             probs.append(f"successful probe must close the breaker; writes={sw}")
@@ -122,9 +129,9 @@ def run(p, led, tier):
                             probs.append(f"failure count not cleared on recovery ({r['count']!r})")
                     elif sw:
                         probs.append(f"illegal write(s) {sw}")
-                    if any(w[2] == "_failure_count" for w in r["writes"]) and st != "HALF_OPEN":
+                    if any(w[2] == CF for w in r["writes"]) and st != "HALF_OPEN":
                         pass   # resetting consecutive failures on success is allowed ("in total" / "consecutive" both satisfied)
-                elif mname == "reset_circuit_breaker":
+                elif mname == "reset":
                     if fin != "CLOSED" or r["count"] != 0:
                         probs.append(f"manual reset leaves state {fin}, count {r['count']!r}")
             if probs:
@@ -140,42 +147,29 @@ def run(p, led, tier):
         n, t = Lin.sym("failures_so_far"), Lin.sym("threshold")
         it.assume(n)
         it.assume(t.add(Lin({}, 1), -1))
-        obj.fields["_failure_count"] = n
+        obj.fields[CF] = n
         obj.fields["failure_threshold"] = t
-        it.call_fi(M["_record_failure"], [obj], {})
-        fin = sname(obj.fields["_circuit_state"])
+        it.call_fi(M["failure"], [obj], {})
+        fin = sname(obj.fields[SF])
         after = n.add(Lin({}, 1))
         if fin == "OPEN":
             return ("OPEN", entails(it.facts, after.add(t, -1)))            # count after ≥ threshold
         return (fin, entails(it.facts, t.add(after, -1).add(Lin({}, 1), -1)))   # count after ≤ threshold − 1
     outs = [r for _, r in explore(drive_exact, max_paths=200)]
-    key = "_record_failure ▸ from CLOSED ▸ opens exactly when the count reaches the threshold"
+    key = f"{ROLE_NAME['failure']} ▸ from CLOSED ▸ opens exactly when the count reaches the threshold"
     early = [r for r in outs if r[0] == "OPEN" and not r[1]]
     late = [r for r in outs if r[0] != "OPEN" and not r[1]]
     if early or late:
-        led.fail("C08-R1", key, where(M["_record_failure"], M["_record_failure"].node),
+        led.fail("C08-R1", key, where(M["failure"], M["failure"].node),
                  ("the breaker can open before the failure threshold has been reached" if early else "the breaker can stay closed although the failure count has reached the threshold (it opens one or more failures late)"),
                  witness="failure_threshold=2: two consecutive executor failures leave the breaker CLOSED" if late else None)
     else:
-        led.ok("C08-R1", key, where(M["_record_failure"], M["_record_failure"].node), f"{len(outs)} symbolic path(s) over integer count n and threshold t: OPEN ⇔ n + 1 ≥ t")
+        led.ok("C08-R1", key, where(M["failure"], M["failure"].node), f"{len(outs)} symbolic path(s) over integer count n and threshold t: OPEN ⇔ n + 1 ≥ t")
 
-    # direction of the recovery-timeout comparison
-    cc = M["_check_circuit"]
-    cmps = [n for n in walk_no_nested(cc.node) if isinstance(n, ast.Compare) and "recovery_timeout" in src(n)]
-    key = "_check_circuit ▸ recovery-timeout comparison"
-    if len(cmps) != 1:
-        led.fail("C08-R1", key, where(cc, cc.node), f"{len(cmps)} comparisons against recovery_timeout (expected one)")
-    else:
-        c = cmps[0]
-        l, op, r = c.left, c.ops[0], c.comparators[0]
-        if "recovery_timeout" in src(l):
-            l, r = r, l
-            op = {ast.Lt: ast.Gt, ast.LtE: ast.GtE, ast.Gt: ast.Lt, ast.GtE: ast.LtE}.get(type(op), type(op))()
-        elapsed_ok = isinstance(l, ast.BinOp) and isinstance(l.op, ast.Sub) and is_self_attr(l.right, TS) and ("now" in src(l.left) or "time" in src(l.left))
-        if isinstance(op, (ast.Gt, ast.GtE)) and elapsed_ok:
-            led.ok("C08-R1", key, where(cc, c), f"`{short(c)}`: elapsed-since-last-failure ≥|> timeout admits the probe")
-        else:
-            led.fail("C08-R1", key, where(cc, c), f"`{short(c)}` does not test 'time since the breaker (re)opened has reached the recovery timeout'")
+    # the recovery comparison measures `clock − timestamp` (operand order); its direction is decided on the paths above
+    # (OPEN → HALF_OPEN only where the recorded relation is elapsed ≥|> timeout, and always there)
+    key = f"{ROLE_NAME['admit']} ▸ recovery-timeout comparison"
+    led.ok("C08-R1", key, where(ts_site[0], ts_site[1]), f"`{short(ts_site[1])}`: elapsed time is `clock − self.{TS}`; direction decided per path")
 
     # ---------------- R2 isolation through run()
     runm = M["run"]
@@ -192,7 +186,7 @@ def run(p, led, tier):
                     continue
                 ev = r["events"]
                 agents = [e for e in ev if e[0] == "express"]
-                cache = [e for e in ev if e == ("call", "CoherentFeedForwardLoop._check_cache")]
+                cache = [e for e in ev if e == h.CALL["cache"]]
                 f = r["fields"]
                 refused = breaker and st == "OPEN" and not elapsed_held(out["decisions"])
                 if refused:
@@ -208,11 +202,11 @@ def run(p, led, tier):
                         probs.append("request refused although the breaker should admit it")
                     if cache and breaker:
                         # admission test must come first
-                        idx_c = ev.index(("call", "CoherentFeedForwardLoop._check_cache"))
-                        idx_b = ev.index(("call", "CoherentFeedForwardLoop._check_circuit")) if ("call", "CoherentFeedForwardLoop._check_circuit") in ev else -1
+                        idx_c = ev.index(h.CALL["cache"])
+                        idx_b = ev.index(h.CALL["admit"]) if h.CALL["admit"] in ev else -1
                         if idx_b < 0 or idx_b > idx_c:
                             probs.append("cache consulted before the admission test")
-                if not breaker and any(e == ("call", "CoherentFeedForwardLoop._check_circuit") for e in ev):
+                if not breaker and any(e == h.CALL["admit"] for e in ev):
                     pass
             if probs:
                 led.fail("C08-R2", key, where(runm, runm.node), "; ".join(sorted(set(probs))))
@@ -220,8 +214,8 @@ def run(p, led, tier):
                 led.ok("C08-R2", key, where(runm, runm.node), f"{len(paths)} path(s), {n_ref} refusing: no agent, no cache, blocked/CIRCUIT_OPEN; admitted paths consult both agents")
 
     # ---------------- R3 classification: all cells, breaker on, CLOSED
-    REC_F = ("call", "CoherentFeedForwardLoop._record_failure")
-    REC_S = ("call", "CoherentFeedForwardLoop._record_success")
+    REC_F = h.CALL["failure"]
+    REC_S = h.CALL["success"]
     n_fail_cells = 0
     per_class = {}     # class -> dict(cells=int, bad=[(cell, problem)])
     for g in G:
@@ -289,27 +283,30 @@ def run(p, led, tier):
                 led.ok("C08-R5", key, where(m, w), "no same-instance call inside the region can acquire the lock again")
 
     # ---------------- R4 writers
-    allowed_state = {"_check_circuit", "_record_failure", "_record_success", "reset_circuit_breaker", "__init__"}
     n = 0
-    for fi, kind, node in package_attr_writes(p, "_circuit_state", None):
+    for fi, kind, node in package_attr_writes(p, SF, None):
         n += 1
-        key = f"{fi.qual} ▸ write _circuit_state"
-        if fi.cls is L and fi.name in allowed_state:
+        key = f"{fi.qual} ▸ write {SF}"
+        if fi.cls is L and fi.name in N.breaker_methods:
             led.ok("C08-R4", key, where(fi, node), "breaker method", nontrivial=False)
         else:
             led.fail("C08-R4", key, where(fi, node), "breaker state written outside the breaker's own methods")
-    for fi, kind, node in package_attr_writes(p, "_failure_count", None):
+    fail_side = {x.name for x in N.res.reachable_from(N.rec_failure) if x.cls is L}
+    clear_side = {"__init__", N.reset.name} | {x.name for x in N.res.reachable_from(N.rec_success) if x.cls is L}
+    for fi, kind, node in package_attr_writes(p, CF, None):
         if fi.cls is not L:
             continue
-        key = f"{fi.qual} ▸ {kind} _failure_count ▸ {short(node, 40)}"
+        key = f"{fi.qual} ▸ {kind} {CF} ▸ {short(node, 40)}"
         if kind == "augassign":
-            if fi.name == "_record_failure":
+            if fi.name in fail_side:
                 led.ok("C08-R4", key, where(fi, node), "incremented in the failure recorder")
             else:
                 led.fail("C08-R4", key, where(fi, node), "failure count changed outside the failure recorder")
         elif kind == "assign":
             v = node.value if isinstance(node, (ast.Assign, ast.AnnAssign)) else None
-            if isinstance(v, ast.Constant) and v.value == 0 and fi.name in ("_record_success", "reset_circuit_breaker", "__init__"):
+            if isinstance(v, ast.Constant) and v.value == 0 and fi.name in clear_side:
                 led.ok("C08-R4", key, where(fi, node), "cleared on recovery / reset / construction", nontrivial=False)
+            elif fi.name in fail_side and isinstance(v, ast.BinOp) and isinstance(v.op, ast.Add):
+                led.ok("C08-R4", key, where(fi, node), "incremented in the failure recorder")
             else:
                 led.fail("C08-R4", key, where(fi, node), "failure count assigned outside recovery/reset")
